@@ -3,12 +3,12 @@
 import json, sys
 CHECKS = {
  "C20": dict(level="exploration", design="4/C20",
-   text="Metamorphic determinism check over the inputs of C06/C07/C08/C14/C16 (GDSII hierarchies, raw libraries with multi-layer abstract ports/blockages, LEF libraries with several layers per pin and repeated macro names, gridded cells with abstract views and raw-defined cells; also Layer objects sharing a number, shorted nets, nameless libraries): each input description is materialised 6 times in one process (fresh hash maps, hence fresh per-map hash keys) and in 3 separate child processes (fresh per-process keys), converted (GDSII->raw, raw->GDSII, raw->protobuf, LEF->raw->LEF, gridded->raw->GDSII/protobuf) and rendered to a transcript preserving every sequence order (GDSII timestamps masked); all transcripts must be identical.",
+   text="Metamorphic determinism check over the inputs of C06/C07/C08/C14/C16 (GDSII hierarchies, raw libraries with multi-layer abstract ports/blockages, LEF libraries with several layers per pin and repeated macro names, gridded cells with abstract views and raw-defined cells; also Layer objects sharing a number, shorted nets, nameless libraries): each input description is materialised 6 times in one process (fresh hash maps, hence fresh per-map hash keys) and in 3 separate child processes (fresh per-process keys), converted (GDSII->raw, raw->GDSII, raw->protobuf incl. libraries of 64-100 cells of very different sizes, protobuf->raw->protobuf incl. messages defining a cell name twice, LEF->raw->LEF, gridded->raw->GDSII/protobuf; every conversion also twice more than a second apart) and rendered to a transcript preserving every sequence order (GDSII timestamps masked); all transcripts must be identical.",
    note="Hash seeds cannot be chosen, so detection is probabilistic per input (>= 1 - 2^-5 for a two-key map in-process) but effectively certain over hundreds of inputs; a deterministic tree can never fail the check.",
    technique="property-based testing with a metamorphic oracle (repeated materialisation in-process and across child processes)"),
 
  "C08": dict(level="exploration", design="4/C08",
-   text="Seeded proptest search over a family of layer stacks (1-4 metals alternating direction, rails/signals/gaps written flat or with Repeat groups, offsets, overlapping rails, with/without every-other-period flipping, palindromic and asymmetric patterns, pitch 1-3 primitive pitches) via layers listed in any order) crossed with well-formed cells (outlines of whole periods, cuts and assignments at in-range crossings, leaf instances incl. zero-metal cells in all four reflections aligned to periods; 1 in 12 outlines deliberately not whole periods: error required; a third sub-check issues cut requests over the outline edge or over each other: refused or realised, never ignored). Oracle R-tracks computed from the stack description alone: per layer and track the wire pieces, requested cuts and true instance extents tile [0, span] exactly, nothing else on the layer; one via of the stack's size centred on each assigned crossing carrying the net; nets on exactly the covering pieces; rails VDD/VSS.",
+   text="Seeded proptest search over a family of layer stacks (1-4 metals alternating direction, rails/signals/gaps written flat or with Repeat groups, offsets, overlapping rails, with/without every-other-period flipping, palindromic and asymmetric patterns, pitch 1-3 primitive pitches) via layers listed in any order) crossed with well-formed cells (outlines of whole periods, cuts and assignments at in-range crossings, leaf instances incl. zero-metal cells in all four reflections aligned to periods; 1 in 12 outlines deliberately not whole periods: error required; a third sub-check issues cut requests over the outline edge, over each other or on a stretch an instance blocks: refused or realised, never ignored; a fourth gives leaf cells abstract views with edge ports, also on layers that have rails only: an error or one rectangle per port, never a crash). Assignments may sit on crossings over an instance (the via is drawn, the blocked track carries no wire there). Oracle R-tracks computed from the stack description alone: per layer and track the wire pieces, requested cuts and true instance extents tile [0, span] exactly, nothing else on the layer; one via of the stack's size centred on each assigned crossing carrying the net; nets on exactly the covering pieces; rails VDD/VSS.",
    note="Non-rectangular outlines, odd widths/cut/via sizes, instances not aligned to whole periods and abstract ports are not generated. Tracks are numbered in the order their period lists them.",
    technique="property-based testing against an independent track/segment reference model (tiling validity predicate)"),
 
@@ -17,7 +17,7 @@ CHECKS = {
    note="Non-orthogonal side/alignment pairs, Center/Ports alignment, placement relative to arrays/groups, relative array placement are unimplemented in the code and outside the quantifier.",
    technique="exhaustive table + property-based testing against a reference placement model; order-independence as a metamorphic relation"),
  "C19": dict(level="exploration", design="4/C19",
-   text="Seeded proptest search over placed gridded-layout libraries (cell DAGs in shuffled order, stepped outlines with ties, 0-5 metals, instances with all four reflection combinations, arbitrary assignments and cuts, port-less abstracts): export lists cells after the cells they instantiate, import succeeds and every field is equal. The exported message with one of 16 faults (each mandatory sub-message removed, undefined/external reference, relative placement, non-monotone outline, negative track) must be an error, never a crash.",
+   text="Seeded proptest search over placed gridded-layout libraries (cell DAGs in shuffled order, stepped outlines with ties, 0-5 metals, instances with all four reflection combinations, arbitrary assignments and cuts, port-less abstracts): export lists cells after the cells they instantiate, import succeeds and every field is equal. The exported message with one of 19 faults (each mandatory sub-message removed, undefined/external reference, an instantiated cell removed, cells listed users first, all leaf cells removed, relative placement, non-monotone outline, negative track) must be an error, never a crash.",
    note="Abstract ports are not generated (import is todo!() and outside the statement's field list).",
    technique="property-based testing: export/import round-trip oracle + fault injection into the exported message"),
 
@@ -45,7 +45,7 @@ CHECKS = {
    note="Trusted base: the renderer harness/src/gen/lef.rs as the reading of the LEF syntax. Tokens whitespace-separated; names start with an ASCII letter and are not keywords; no '+'/exponent numbers; VERSION first.",
    technique="property-based testing: differential oracle, independent renderer -> reader under test, with metamorphic lexical variation"),
  "C05": dict(level="exploration", design="4/C05",
-   text="Domain = the image of the reader: every library obtained by reading rendered G-lef texts (all constructs, versions 5.3-5.8) plus each version-gated statement under each version (exhaustive 6x3) and hand-written texts; to_string()/save() must succeed and the written text must read back to an equal library.",
+   text="Domain = the image of the reader: every library obtained by reading rendered G-lef texts (all constructs, versions 5.3-5.8) plus each version-gated statement under each version (exhaustive 6x3), three dozen statements the reader refuses today or accepts in part under each version (whatever it accepts the writer must carry) and hand-written texts; to_string()/save() must succeed and the written text must read back to an equal library.",
    note="Layout of the written text is free. The lefrw binary is built from /repo's working tree into the harness target directory and run on 400 (quick) generated files; its output must read back equal.",
    technique="property-based testing: write/read round-trip oracle over the reader's image"),
 
@@ -54,7 +54,7 @@ CHECKS = {
    note="An import error on a well-formed library is allowed by the statement (counted as refused). MAG != 1, absolute flags, nodes, two different labels on one shape not generated.",
    technique="property-based testing against an independent reference flattener and exact geometry (differential oracle)"),
  "C07": dict(level="exploration", design="4/C07",
-   text="Seeded proptest search over raw layout libraries (cell DAGs in shuffled order, eight instance orientations, rectangles, U/L/histogram/45-degree/star/trapezoid polygons, Manhattan paths, nets, many layers/purposes incl. purposes sharing a number, abstract views beside layouts, empty cells, all four units): export to GDSII must succeed (the documented label-search refusal is accepted only when none of its candidates lies inside the polygon), exported paths keep exactly their points and every emitted label lies in its shape (exact geometry on the GDSII itself), and re-import gives per cell the same multisets of shapes (layer number, purpose number, points, width, lower-cased net) and instances (target, location, reflection, angle) and the same units.",
+   text="Seeded proptest search over raw layout libraries (cell DAGs in shuffled order, eight instance orientations, rectangles, U/L/histogram/45-degree/star/trapezoid polygons, Manhattan paths, nets, many layers/purposes incl. purposes sharing a number, abstract views beside layouts, empty cells, all four units): export to GDSII must succeed (the documented label-search refusal is accepted only when none of its candidates lies inside the polygon), exported paths keep exactly their points and every emitted label lies in its shape (exact geometry on the GDSII itself), and re-import gives per cell the same multisets of shapes (layer number, purpose number, points, width, lower-cased net) and instances (target, location, reflection, angle) and the same units; a second sub-check does the same on chains of 30-200 nested cells listed top-down, bottom-up or shuffled.",
    note="Cell order, rectangle corner order, rectangle-shaped polygons, None vs Some(0) angle, annotations and instance names are not compared; 'No valid label location' for a non-rectilinear named polygon is the documented refusal.",
    technique="property-based testing: export/import round-trip oracle plus exact-geometry validity predicates on the exported GDSII"),
 
@@ -68,7 +68,7 @@ CHECKS = {
    note="Trusted base: integer orientation matrices in harness/src/refmodel/geom.rs.",
    technique="exhaustive enumeration + property-based testing against an exact integer reference model; differential against the library's elementary transforms"),
  "C13": dict(level="exploration", design="4/C13",
-   text="Exhaustive: all rectangles on a 6x6 grid x all surrounding points; all simple polygons with 3-4 vertices on a 5x5 grid (3-5 in thorough; 4x4 with 5 vertices in quick) incl. collinear/repeated vertices, both orientations, all start vertices, x every surrounding grid point. Random rectilinear (L/U/T histogram), 45-degree and star-shaped polygons queried over their bounding box and at every vertex height; Manhattan paths queried over their neighbourhood and judged by zone. Oracle: exact closed-region membership (integer cross products).",
+   text="Exhaustive: all rectangles on a 6x6 grid x all surrounding points; all simple polygons with 3-4 vertices on a 5x5 grid (3-5 in thorough; 4x4 with 5 vertices in quick) incl. collinear/repeated vertices, both orientations, all start vertices, x every surrounding grid point. Random rectilinear (L/U/T histogram), 45-degree and star-shaped polygons queried over their bounding box and at every vertex height; outlines of 60-520 vertices; convex polygons with coordinates to 2^30 queried at the lattice points nearest their edges; Manhattan paths queried over their neighbourhood and judged by zone. Oracle: exact closed-region membership (integer cross products).",
    note="Path end caps and the corner squares outside the joint disc are not asserted (statement ambiguous there).",
    technique="exhaustive enumeration + property-based testing against an exact integer geometry kernel"),
 
